@@ -17,6 +17,11 @@ import (
 func init() {
 	props["C02"] = func(rng *sx.Rng, thorough bool) {
 		keys := signKeyPool(thorough)
+		if thorough {
+			c02envBlock(rng, keys, 1500)
+		} else {
+			c02envBlock(rng, keys, 60)
+		}
 		n := 400
 		if thorough {
 			n = 8000
@@ -218,4 +223,94 @@ func checkAllQuiet(ss pipeline.Steps) (int, bool) {
 		}
 	}
 	return n, true
+}
+
+// c02envBlock: the pipeline's OWN env block is the signing env (interpolated first, handed over as a plain map, the
+// way an uploader does it), and the env block of the re-parsed pipeline is the verification env. Names written with a
+// variable may expand onto names written literally elsewhere in the block.
+func c02envBlock(rng *sx.Rng, keys []signKey, n int) {
+	for i := 0; i < n; i++ {
+		g := newDocgen(rng, false)
+		e := dMap()
+		entries := []dkv{{"${WHICH}", dStr("from the template")}, {"TARGET", dStr("literal")}, {"PLAIN", dStr("p $FOO")}, {"${OTHER}_X", dStr("x")}, {"B_X", dStr("literal x")}}
+		for j := len(entries) - 1; j > 0; j-- {
+			k := rng.Intn(j + 1)
+			entries[j], entries[k] = entries[k], entries[j]
+		}
+		for _, en := range entries {
+			if rng.Chance(80) {
+				e.m = append(e.m, en)
+			}
+		}
+		steps := dList(g.signableStep(), dMap(dkv{"group", dStr("g")}, dkv{"steps", dList(g.signableStep())}))
+		doc := dMap(dkv{"env", e}, dkv{"steps", steps})
+		var b bytes.Buffer
+		doc.jsonText(&b)
+		text := b.String()
+		short := sx.L(sx.A("own-env-block"), sx.A(text))
+		noteCase("C02", text)
+		p, err := pipeline.Parse(strings.NewReader(text))
+		if err != nil && !warning.Is(err) {
+			oracleFail("C02", "document-rejected", short, err.Error())
+			continue
+		}
+		if err := p.Interpolate(&hEnv{m: map[string]string{"FOO": "vfoo", "WHICH": "TARGET", "OTHER": "B"}}, false); err != nil {
+			continue // a generated step string may hold a reference that fails; not this scenario's concern
+		}
+		signEnv := p.Env.ToMap()
+		ranged := map[string]string{}
+		p.Env.Range(func(k, v string) error { ranged[k] = v; return nil })
+		if fmt.Sprint(signEnv) != fmt.Sprint(ranged) {
+			oracleFail("C02", "env-block-as-map", short, fmt.Sprintf("the interpolated env block as a plain map is %v, its entries are %v", signEnv, ranged))
+			continue
+		}
+		key := keys[i%len(keys)]
+		repo := "git@example.org:o/r.git"
+		if err := signature.SignSteps(context.Background(), p.Steps, key.priv, repo, signature.WithEnv(signEnv)); err != nil {
+			oracleFail("C02", "sign-error", short, err.Error())
+			continue
+		}
+		jb, _ := json.Marshal(p)
+		yb, _ := yaml.Marshal(p)
+		bad := false
+		for leg, data := range map[string][]byte{"json": jb, "yaml": yb} {
+			p2, err := pipeline.Parse(bytes.NewReader(data))
+			if err != nil && !warning.Is(err) {
+				if leg == "yaml" {
+					continue // F22 / F7 classes are reported by the main scenario
+				}
+				oracleFail("C02", leg+"-reparse-error", short, err.Error())
+				bad = true
+				break
+			}
+			venv := map[string]string{"UNRELATED_A": "1"}
+			if p2.Env != nil {
+				p2.Env.Range(func(k, v string) error { venv[k] = v; return nil })
+			}
+			var walk func(ss pipeline.Steps)
+			walk = func(ss pipeline.Steps) {
+				for _, st := range ss {
+					switch t := st.(type) {
+					case *pipeline.CommandStep:
+						if t.Signature == nil {
+							oracleFail("C02", leg+"-signature-lost", short, "command step without signature after the round trip")
+							bad = true
+						} else if err := verifyStep(key, t.Signature, t, repo, venv); err != nil && !bad {
+							oracleFail("C02", leg+"-verify", short, fmt.Sprintf("signed with the pipeline's own env block %v, verified after the %s round trip with the re-parsed block %v: %v", signEnv, leg, venv, err))
+							bad = true
+						}
+					case *pipeline.GroupStep:
+						walk(t.Steps)
+					}
+				}
+			}
+			walk(p2.Steps)
+			if bad {
+				break
+			}
+		}
+		if !bad {
+			stat("C02", "own-env-block")
+		}
+	}
 }
